@@ -410,7 +410,7 @@ pub fn gen_cfgs(thorough: bool, n_ops: usize) -> Vec<GenCfg> {
     }];
     v.push(GenCfg {
         max_blocks: 3,
-        max_instrs: if thorough { 2 } else { 1 },
+        max_instrs: if thorough { 3 } else { 1 },
         max_per_block: 2,
         n_ops,
         n_guards: 1,
